@@ -45,10 +45,12 @@ def run_batch(spec):
 def ends_of(tm):
     out = []
     for t in tm.traces:
-        last = t[-1]
+        # the reference reads the trace by ITERATION (the recorded snapshots in order), not through the index lookup the
+        # summary itself uses
+        snaps = list(t)
+        last = snaps[-1]
         nh = len(t.hops) if hasattr(t, "hops") else 0
         # the hops of a trace as ITS OWN snapshots show them (changes of the active state between consecutive snapshots)
-        snaps = list(t)
         changes = sum(1 for a_, b_ in zip(snaps[:-1], snaps[1:]) if a_["active"] != b_["active"])
         out.append(dict(weight=float(t.weight), ndim=len(last["position"]), active=int(last["active"]),
                         pos0=float(last["position"][0]), nhops=nh, changes=changes,
@@ -234,7 +236,39 @@ def oracle_continue(args):
             shutil.rmtree(tmp, ignore_errors=True)
 
 
-ORACLES = {"batch": oracle_batch, "cli": oracle_cli, "continue": oracle_continue}
+@safe_oracle
+def oracle_trace_every(args):
+    """how often snapshots are logged (trace_every) is bookkeeping: the outcome table, the counts and the weights of a batch do not
+    depend on it - in particular for an even-sampling tree cut by max_steps on the very step a child is spawned (the child never
+    runs: its last snapshot has to be its own, forced, whatever the logging stride)"""
+    spec = dict(args)
+    spec.pop("every", None)
+    base = dict(spec, every=1)
+    tm1, model, _t = run_batch(base)
+    ref = np.asarray(tm1.outcomes, dtype=np.float64)
+    w1 = sorted(float(t.weight) for t in tm1.traces)
+    problems = []
+    cuts = [None]
+    if spec["cls"] == "EvenSamplingTrajectory":
+        # the steps at which children were born in the free run: cut the run right there
+        steps = sorted({int(round(t.hops[0]["time"] / spec["dt"])) for t in tm1.traces if getattr(t, "hops", None)})
+        cuts = [s_ + 1 for s_ in steps[:3]] or [None]
+    for cut in cuts:
+        b1 = dict(base) if cut is None else dict(base, max_steps=cut)
+        r1, _m, _t = run_batch(b1)
+        o1 = np.asarray(r1.outcomes, dtype=np.float64)
+        for k in args.get("strides", [3, 7]):
+            rk, _m, _t = run_batch(dict(b1, every=k))
+            ok_ = np.asarray(rk.outcomes, dtype=np.float64)
+            if ok_.shape != o1.shape or not allclose(ok_, o1, 1.0, rtol=1e-12):
+                problems.append("max_steps=%r: outcomes with trace_every=%d are %r, with trace_every=1 %r" % (cut, k, ok_.tolist(), o1.tolist()))
+            if sorted(float(t.weight) for t in rk.traces) != sorted(float(t.weight) for t in r1.traces):
+                problems.append("max_steps=%r: the weights of the traces depend on trace_every" % (cut,))
+    return not problems, {"cuts": cuts, "reference": ref, "weights": w1[:6], "problems": problems[:3]}, {"problems": []}, \
+        "; ".join(problems[:2]) or "ok"
+
+
+ORACLES = {"trace_every": oracle_trace_every, "batch": oracle_batch, "cli": oracle_cli, "continue": oracle_continue}
 
 
 def _specs(ctx, count):
@@ -338,6 +372,18 @@ def run(ctx):
             ctx.count("batches_where_every_trajectory_hopped")
         if not ok:
             ctx.oracle_fail("batch-stats", "batch", spec, obs, req, text)
+    # the logging stride is bookkeeping (even-sampling trees are cut on the steps their children are born)
+    for i in range(ctx.budget(3, 24)):
+        cls = ["EvenSamplingTrajectory", "TrajectorySH", "EvenSamplingTrajectory"][i % 3]
+        a = dict(model=["simple", "dual"][i % 2], cls=cls, x0=-4.0, k=float(ctx.rng.uniform(8, 20)), seed=int(ctx.rng.integers(1, 2 ** 31)),
+                 samples=1 if cls == "EvenSamplingTrajectory" else 3, dt=20.0, box=3.0, max_steps=400, stack=[3], quadrature="gl", strides=[3, 7])
+        if i % 3 == 2:
+            a["store"] = "yaml"
+        ok, obs, req, text = oracle_trace_every(a)
+        ctx.case(("trace-every", cls, a.get("store", "memory")))
+        ctx.count("trace_every_invariance")
+        if not ok:
+            ctx.oracle_fail("outcome-depends-on-trace-every", "trace_every", a, obs, req, text)
     # tables asked for, trajectories continued from the manager's own trace objects, tables asked for again (both stores)
     for i in range(ctx.budget(2, 20)):
         a = dict(model="simple", x0=-6.0, k=float(ctx.rng.uniform(12, 20)), seed=int(ctx.rng.integers(1, 2 ** 31)), samples=4, dt=20.0,
